@@ -531,7 +531,7 @@ func genSched(seed uint64, prop, tier, mode string) *Plan {
 			if o == nil {
 				o = drawCorpusObject(g, idx, KCert)
 			}
-			o = maybeSynth(g, idx, o, 0.3)
+			o = maybeSynth(g, idx, o, map[bool]float64{false: 0.3, true: 0.5}[race])
 			p.Objects = append(p.Objects, *o)
 			mine = append(mine, len(p.Objects)-1)
 		}
